@@ -3,15 +3,37 @@ C14 — diagnostics do not depend on how script-chosen names are spelled.
 
 Full statement (DESIGN §4 C14): for an injective renaming ρ of script-introduced names that keeps
 ignore-pattern status and avoids library segments, special names and string literals,
-`diags (rename ρ t) = (diags t).map (renameMsg ρ)` in token space.  STATUS: the simulation proof over
-the scope model is pending; proved here are the lemmas it rests on — every name-keyed operation of
-the specification resolver is an equality test between variable names, which an injective renaming
-preserves.  The correspondence run checks the full statement on the real code (program vs renamed
-twin, including renamings to very long names).
+`diags (rename ρ t) = (diags t).map (renameMsg ρ)` in token space.
+
+Proved here: `C14_resolution_invariant` — for every chunk and every injective renaming ρ of identifiers
+that fixes `...` and `self`, the scope-stack machine of `Scope/Core.lean` records for the renamed chunk
+exactly the same (read token, declaration token) answers as for the original: which declaration a
+read denotes never depends on how names are spelled (a fresh-name renaming of some locals is the
+restriction of such a ρ — swap each old name with its unused new one).  The proof goes through the
+ordered specification (`Scope/RenameProof.lean`: every environment lookup is an equality test on
+names, which ρ preserves; 30 mutual lemmas) and `CoreProof.analyse_eq`.  What the lints add on top of
+the resolution — library lookups by name, the ignore pattern, message texts — is where the
+property's side conditions come from; that part is checked on the real code by the twin runs
+(program vs renamed twin, including renamings to very long names).  The lemmas about the
+source-order resolver (`lookup_rename` …) are kept below.
 -/
 import Selene.Scope.Spec
+import Selene.Scope.RenameProof
+import Selene.Scope.CoreProof
 namespace Selene.Props.C14
 open Selene.Scope.Spec
+
+/-- **C14 (resolution is spelling-independent).** -/
+theorem C14_resolution_invariant (ρ : String → String) (hρ : Selene.Scope.RenameProof.Renaming ρ) (b : Selene.Lua.Block) :
+    (Selene.Scope.Core.analyse (b.ren ρ)).answers = (Selene.Scope.Core.analyse b).answers := by
+  rw [Selene.Scope.CoreProof.analyse_eq, Selene.Scope.CoreProof.analyse_eq, Selene.Scope.RenameProof.chunk_ren hρ]
+
+/-- hypotheses are satisfiable by a renaming that is not the identity: swap `x` and `fresh` -/
+example : Selene.Scope.RenameProof.Renaming (fun n => if n = "x" then "fresh" else if n = "fresh" then "x" else n) := by
+  refine ⟨?_, by decide, by decide⟩
+  intro a b h
+  by_cases ha : a = "x" <;> by_cases hb : b = "x" <;> by_cases ha' : a = "fresh" <;> by_cases hb' : b = "fresh" <;>
+    simp_all
 
 def renameEnv (ρ : String → String) (env : Env) : Env := env.map fun e => (ρ e.1, e.2)
 
